@@ -216,6 +216,7 @@ func runC18(p *Prog, r *Report) {
 	}
 	r.OK("own code/emission vocabulary", "", fmt.Sprintf("%d emission chains scanned, %d denied constructs", len(chains), nDeny))
 	pkgLevelStateRule(p, r, "C18.R5")
+	armEffectRule(p, r, "C18.R6", "config.parseConverterLine", "output:package", "OutputPackagePath", "OutputPackageName")
 }
 
 func appendGeneratedChainOK(p *Prog, c *Chain) (bool, string) {
